@@ -60,9 +60,11 @@ KF_C06_SparseNumExceedsSize   == "KF_C06_SparseNumExceedsSize"
 KF_C06_ReducedDofScatter      == "KF_C06_ReducedDofScatter"
 KF_C06_RoundedSort            == "KF_C06_RoundedSort"
 KF_C06_DenseColumnSum         == "KF_C06_DenseColumnSum"
+KF_C06_SingularMassModes      == "KF_C06_SingularMassModes"
 DevC05 == {KF_C05_DenseNumExceedsSize, KF_C05_FallbackNumExceedsSize, KF_C05_PanelNumNotCapped,
            KF_C05_NonPositiveTail, KF_C05_ConeCylBucklingMode, KF_C05_LoadOnStiffnessless}
-DevC06 == {KF_C06_SparseNumExceedsSize, KF_C06_ReducedDofScatter, KF_C06_RoundedSort, KF_C06_DenseColumnSum}
+DevC06 == {KF_C06_SparseNumExceedsSize, KF_C06_ReducedDofScatter, KF_C06_RoundedSort, KF_C06_DenseColumnSum,
+           KF_C06_SingularMassModes}
 DevNames == DevC05 \cup DevC06
 
 LbApis   == {"lb", "panel_lb", "conecyl_lb"}
@@ -113,6 +115,12 @@ SubCritical(p) == \A i \in Negs(p) : RLt(RNeg(ROne), Mu(p, i))   \* every positi
 Regime(p) == Destabilising(p) /\ SubCritical(p)
 
 (* ------------------------------- states -------------------------------- *)
+(* Sparse frequency path with massless stiff amplitudes (M singular on the reduced set): eigs' shift-invert Ritz
+   vectors carry a component in the null space of M that scipy does not purify away; the frequencies are those
+   of the condensed problem, the modes handed back are not eigenvectors (one more application of
+   (K+M)^-1 M would purify them).  With the deviation on, the eigenvector clause is not demanded there. *)
+ModesUnspecified(s) == /\ "KF_C06_SingularMassModes" \in s.dev /\ s.o.api \in FreqApis /\ s.o.sparse
+                       /\ Act(s.p) # Both(s.p)
 NoVec == [nr |-> 0, src |-> <<>>, colid |-> <<>>]
 InitState(p, o, dev) ==
     [p |-> p, o |-> o, dev |-> dev, pc |-> "start", k |-> 0, path |-> "none", used |-> <<>>,
